@@ -78,6 +78,7 @@ from vgi_rpc.rpc._wire import (
     _deserialize_params,
     _drain_stream,
     _flush_collector,
+    _flush_collector_logs,
     _read_request,
     _validate_call_signature,
     _validate_params,
@@ -1161,8 +1162,14 @@ class RpcServer:
             status = "error"
             error_type = _log_method_error(protocol_name, info.name, self._server_id, exc)
             error_message = str(exc)
-            with contextlib.suppress(BrokenPipeError, OSError):
-                _write_error_stream(transport.writer, _EMPTY_SCHEMA, exc, server_id=self._server_id)
+            with (
+                contextlib.suppress(BrokenPipeError, OSError),
+                new_ipc_stream(transport.writer, _EMPTY_SCHEMA) as err_writer,
+            ):
+                # What the method logged before it raised goes out ahead of
+                # the error, as it does for a unary method.
+                sink.flush_contents(err_writer, _EMPTY_SCHEMA)
+                _write_error_batch(err_writer, _EMPTY_SCHEMA, exc, server_id=self._server_id)
             self._discard_refused_stream_input(transport, info)
             return
         finally:
@@ -1203,6 +1210,8 @@ class RpcServer:
         input_reader = ValidatedReader(ipc.open_stream(transport.reader), self._ipc_validation)
 
         prev_input: AnnotatedBatch | None = None
+        # Collector of the step in flight: set while its batches are unwritten.
+        step_out: OutputCollector | None = None
         try:
             with new_ipc_stream(transport.writer, output_schema) as output_writer:
                 sink.flush_contents(output_writer, output_schema)
@@ -1267,7 +1276,7 @@ class RpcServer:
                             prev_input.release()
                         prev_input = ab_in
                         is_producer = input_schema == _EMPTY_SCHEMA
-                        out = OutputCollector(
+                        step_out = out = OutputCollector(
                             output_schema,
                             prior_data_bytes=cumulative_bytes,
                             server_id=self._server_id,
@@ -1286,6 +1295,7 @@ class RpcServer:
                         state.process(ab_in, out, process_ctx)
                         if not out.finished:
                             out.validate()
+                        step_out = None  # from here the flush owns the batches
                         _flush_collector(output_writer, out, self._external_config, shm=shm)
                         if out.finished:
                             break
@@ -1296,6 +1306,9 @@ class RpcServer:
                     error_type = _log_method_error(protocol_name, info.name, self._server_id, exc)
                     error_message = str(exc)
                     with contextlib.suppress(BrokenPipeError, OSError):
+                        # Logs of the step that raised precede its error.
+                        if step_out is not None:
+                            _flush_collector_logs(output_writer, step_out)
                         _write_error_batch(output_writer, output_schema, exc, server_id=self._server_id)
                 finally:
                     # Release the final input before closing the output IPC
